@@ -68,7 +68,7 @@ def harnesses(tier):
             hs.append({"id": "fewartic/%s/t%d%d/h%d" % ("-".join(ks), tips[0], tips[1], seed),
                        "params": {"kind": "chain", "kinds": ks, "tips": list(tips), "variants": [0, 1, 2, 3], "naming": 0, "hashseed": seed},
                        "timeout": 400})
-    for order in (["chr1", "chr2"], ["chr2", "chr1"], ["chr2", "chr3", "chr1"]):
+    for order in (["chr1", "chr2"], ["chr2", "chr1"], ["chr2", "chr3", "chr1"], ["chr4", "chr1"], ["chr2", "chr4", "chr3"]):
         for seed in (0, 1):
             hs.append({"id": "run/%s/h%d" % (",".join(order), seed), "params": {"kind": "run", "order": order, "hashseed": seed}, "timeout": 900})
     return hs
@@ -120,10 +120,12 @@ def build(params):
     spec = F.Spec()
     for c in ("chr1", "chr2", "chr3"):
         F.build_chain(spec, c, kinds[c], tip_start=(c != "chr2"), tip_end=True, naming=0)
-    nrefs = {c: F.n_refs(spec, c) for c in ("chr1", "chr2", "chr3")}
+    F.build_chain(spec, "chr4", [], tip_start=False, tip_end=False, naming=0)  # a single segment
+    ALLC = ("chr1", "chr2", "chr3", "chr4")
+    nrefs = {c: F.n_refs(spec, c) for c in ALLC}
     args = []
     pre = []
-    for c in ("chr1", "chr2", "chr3"):
+    for c in ALLC:
         for i in range(nrefs[c]):
             args.append(("l%s_%d" % (c[-1], i), "int"))
             pre.append("l%s_%d >= 1" % (c[-1], i))
@@ -133,7 +135,7 @@ def build(params):
         e = stubs.env()
         so = {}
         pos = 0
-        for c in ("chr1", "chr2", "chr3"):
+        for c in ALLC:
             so.update(F.so_layout(spec, c, a[pos:pos + nrefs[c]], 0))
             pos += nrefs[c]
         g = F.direct_graph(spec, so)
@@ -159,7 +161,7 @@ def build(params):
             if set(scaffold) != set(oc[1]):
                 return "%s: nodes with NO 0 are not the articulation points" % c
             prev_max = mx
-        for c in ("chr1", "chr2", "chr3"):
+        for c in ALLC:
             if c not in order:
                 if any("BO" in g.nodes[n].tags for n in spec.chroms[c]):
                     return "chromosome %s was not requested but got tags" % c
@@ -250,9 +252,10 @@ def replay(params, model, wd):
     spec = F.Spec()
     for c in ("chr1", "chr2", "chr3"):
         F.build_chain(spec, c, kinds[c], tip_start=(c != "chr2"), tip_end=True, naming=0)
+    F.build_chain(spec, "chr4", [], tip_start=False, tip_end=False, naming=0)
     so = {}
     pos = 0
-    for c in ("chr1", "chr2", "chr3"):
+    for c in ("chr1", "chr2", "chr3", "chr4"):
         n = F.n_refs(spec, c)
         so.update(F.so_layout(spec, c, a[pos:pos + n], 0))
         pos += n
